@@ -11,6 +11,7 @@ import (
 	"path/filepath"
 	"strconv"
 	"strings"
+	"sync"
 
 	"github.com/martian-lang/martian/martian/core"
 	"github.com/martian-lang/martian/martian/syntax"
@@ -177,6 +178,88 @@ func c15EncodeAst(ast *syntax.Ast) (string, error) {
 		}
 	}
 	e.call(ast.Call)
+	// what equivalence.go does not read: per callable src / resources / retain / chunk parameters / help, struct definitions
+	e.tok("X", strconv.Itoa(len(ast.Callables.List)))
+	keys := func(xs []string) {
+		e.tok(strconv.Itoa(len(xs)))
+		for _, x := range xs {
+			e.tok(c15Key(x))
+		}
+	}
+	for _, c := range ast.Callables.List {
+		e.tok(c15Key(c.GetId()))
+		var helps [][2]string
+		switch c := c.(type) {
+		case *syntax.Stage:
+			src := ""
+			if c.Src != nil {
+				src = string(c.Src.Lang) + " " + c.Src.Path + " " + strings.Join(c.Src.Args, " ")
+			}
+			res := ""
+			if r := c.Resources; r != nil {
+				res = fmt.Sprintf("threads=%v mem=%v vmem=%v special=%q strict=%v", r.Threads, r.MemGB, r.VMemGB, r.Special, r.StrictVolatile)
+			}
+			e.tok(c15Key(src), c15Key(res))
+			var ret []string
+			if c.Retain != nil {
+				for _, rp := range c.Retain.Params {
+					ret = append(ret, rp.Id)
+				}
+			}
+			keys(ret)
+			if c.ChunkIns != nil {
+				e.tok(strconv.Itoa(len(c.ChunkIns.List)))
+				for _, p := range c.ChunkIns.List {
+					e.param(p)
+				}
+			} else {
+				e.tok("0")
+			}
+			if c.ChunkOuts != nil {
+				e.tok(strconv.Itoa(len(c.ChunkOuts.List)))
+				for _, p := range c.ChunkOuts.List {
+					e.param(p)
+				}
+			} else {
+				e.tok("0")
+			}
+			for _, p := range c.InParams.List {
+				helps = append(helps, [2]string{"i:" + p.GetId(), p.GetHelp()})
+			}
+			for _, p := range c.OutParams.List {
+				helps = append(helps, [2]string{"o:" + p.GetId(), p.GetHelp()})
+			}
+		case *syntax.Pipeline:
+			e.tok("-", "-")
+			var ret []string
+			if c.Retain != nil {
+				for _, ref := range c.Retain.Refs {
+					ret = append(ret, ref.Id+"."+ref.OutputId)
+				}
+			}
+			keys(ret)
+			e.tok("0", "0")
+			for _, p := range c.InParams.List {
+				helps = append(helps, [2]string{"i:" + p.GetId(), p.GetHelp()})
+			}
+			for _, p := range c.OutParams.List {
+				helps = append(helps, [2]string{"o:" + p.GetId(), p.GetHelp()})
+			}
+		}
+		e.tok(strconv.Itoa(len(helps)))
+		for _, h := range helps {
+			e.tok(c15Key(h[0]), c15Key(h[1]))
+		}
+	}
+	e.tok("T", strconv.Itoa(len(ast.StructTypes)))
+	for _, st := range ast.StructTypes {
+		e.tok(c15Key(st.Id), strconv.Itoa(len(st.Members)))
+		for _, m := range st.Members {
+			t := m.Tname
+			e.tok(c15Key(m.Id), c15Key(t.Tname), strconv.Itoa(int(t.ArrayDim)), strconv.Itoa(int(t.MapDim)),
+				strconv.Itoa(int(m.IsFile())), c15Key(m.OutName))
+		}
+	}
 	return e.sb.String(), e.err
 }
 
@@ -240,6 +323,9 @@ func c15Compile(dir string, p *gProg) (*c15Compiled, error) {
 type c15Edit struct {
 	name     string
 	semantic bool // ground truth: does it change what would run?
+	// which `Ignored` aspects of the model's full meaning must differ: "-" = none (purely textual
+	// edit), a kind name = exactly that aspect (an edit the code ignores by design), "" = not checked
+	kinds string
 	// apply edits q in place; returns a description, whether the edit touched
 	// the top-level invocation text, and whether it was applicable
 	apply func(rng *rand.Rand, q *gProg) (string, bool, bool)
@@ -328,10 +414,10 @@ func c15IsLiteral(e string) bool {
 func c15Edits() []c15Edit {
 	var E []c15Edit
 	cos := func(name string, f func(rng *rand.Rand, q *gProg) (string, bool, bool)) {
-		E = append(E, c15Edit{name, false, f})
+		E = append(E, c15Edit{name, false, "", f})
 	}
 	sem := func(name string, f func(rng *rand.Rand, q *gProg) (string, bool, bool)) {
-		E = append(E, c15Edit{name, true, f})
+		E = append(E, c15Edit{name, true, "", f})
 	}
 	// ---------------- cosmetic ----------------
 	cos("identity", func(rng *rand.Rand, q *gProg) (string, bool, bool) { return "no change", false, true })
@@ -396,16 +482,20 @@ func c15Edits() []c15Edit {
 	cos("filetype-rename", func(rng *rand.Rand, q *gProg) (string, bool, bool) {
 		// only file types used in scalar positions everywhere
 		var cands []string
+		reach := c15Reachable(q)
 		for _, f := range q.Filetypes {
-			ok := true
+			ok, used := true, false
 			for _, d := range q.Decls {
 				for _, p := range append(append([]gParam{}, d.ins()...), d.outs()...) {
 					if strings.Contains(p.Type, f) && p.Type != f {
 						ok = false
 					}
+					if p.Type == f && reach[d.name()] {
+						used = true
+					}
 				}
 			}
-			if ok {
+			if ok && used {
 				cands = append(cands, f)
 			}
 		}
@@ -453,28 +543,97 @@ func c15Edits() []c15Edit {
 		c.Volatile = !c.Volatile
 		return "toggle volatile on call " + c.id(), false, true
 	})
-	cos("stage-src-resources", func(rng *rand.Rand, q *gProg) (string, bool, bool) {
+	cos("stage-src", func(rng *rand.Rand, q *gProg) (string, bool, bool) {
 		ss := c15Stages(q, true)
 		if len(ss) == 0 {
 			return "", false, false
 		}
-		s := ss[rng.Intn(len(ss))]
-		switch rng.Intn(3) {
-		case 0:
-			s.Src += "_v2"
-			return "stage src of " + s.Name, false, true
-		case 1:
-			s.MemGB += 3
-			return "stage mem_gb of " + s.Name, false, true
-		default:
-			for _, o := range s.Outs {
+		st := ss[rng.Intn(len(ss))]
+		st.Src += "_v2"
+		return "stage src of " + st.Name, false, true
+	})
+	cos("stage-resources", func(rng *rand.Rand, q *gProg) (string, bool, bool) {
+		ss := c15Stages(q, true)
+		if len(ss) == 0 {
+			return "", false, false
+		}
+		st := ss[rng.Intn(len(ss))]
+		st.MemGB += 3
+		return "stage mem_gb of " + st.Name, false, true
+	})
+	cos("stage-retain", func(rng *rand.Rand, q *gProg) (string, bool, bool) {
+		for _, st := range c15Stages(q, true) {
+			for _, o := range st.Outs {
 				if gIsFiletype(q, o.Type) {
-					if len(s.Retain) == 0 {
-						s.Retain = []string{o.Name}
+					if len(st.Retain) == 0 {
+						st.Retain = []string{o.Name}
 					} else {
-						s.Retain = nil
+						st.Retain = nil
 					}
-					return "stage retain of " + s.Name, false, true
+					return "stage retain of " + st.Name, false, true
+				}
+			}
+		}
+		return "", false, false
+	})
+	cos("chunk-params", func(rng *rand.Rand, q *gProg) (string, bool, bool) {
+		for _, st := range c15Stages(q, true) {
+			if st.Split {
+				if rng.Intn(2) == 0 {
+					if len(st.ChunkIns) == 0 {
+						st.ChunkIns = []gParam{{Type: "int", Name: "chunk_ix"}}
+					} else {
+						st.ChunkIns = append(st.ChunkIns, gParam{Type: "string", Name: "chunk_tag"})
+					}
+				} else {
+					st.ChunkOuts = append(st.ChunkOuts, gParam{Type: "int", Name: "chunk_result"})
+				}
+				return "split in/out parameters of stage " + st.Name, false, true
+			}
+		}
+		return "", false, false
+	})
+	cos("parameter-help", func(rng *rand.Rand, q *gProg) (string, bool, bool) {
+		r := c15Reachable(q)
+		var ds []*gDecl
+		for i := range q.Decls {
+			if r[q.Decls[i].name()] {
+				ds = append(ds, &q.Decls[i])
+			}
+		}
+		d := ds[rng.Intn(len(ds))]
+		ps := d.ins()
+		if rng.Intn(2) == 0 || len(ps) == 0 {
+			ps = d.outs()
+		}
+		if len(ps) == 0 {
+			return "", false, false
+		}
+		k := rng.Intn(len(ps))
+		ps[k].Help += "what " + ps[k].Name + " is for"
+		return "help text of " + d.name() + "." + ps[k].Name, false, true
+	})
+	cos("stage-output-filename", func(rng *rand.Rand, q *gProg) (string, bool, bool) {
+		for _, st := range c15Stages(q, true) {
+			for k := range st.Outs {
+				if gIsFiletype(q, strings.TrimSuffix(st.Outs[k].Type, "[]")) {
+					st.Outs[k].OutName = "custom_" + st.Outs[k].Name + ".dat"
+					return "output file name of stage output " + st.Name + "." + st.Outs[k].Name, false, true
+				}
+			}
+		}
+		return "", false, false
+	})
+	cos("pipeline-retain", func(rng *rand.Rand, q *gProg) (string, bool, bool) {
+		for _, pp := range c15ReachablePipes(q) {
+			for _, src := range gSources(pp, q, len(pp.Calls)) {
+				if !strings.HasPrefix(src.Exp, "self.") && gIsFiletype(q, strings.TrimSuffix(src.Type, "[]")) {
+					if len(pp.Retain) == 0 {
+						pp.Retain = []string{src.Exp}
+					} else {
+						pp.Retain = nil
+					}
+					return "pipeline retain of " + pp.Name + ": " + src.Exp, false, true
 				}
 			}
 		}
@@ -876,6 +1035,34 @@ func c15Edits() []c15Edit {
 		return fmt.Sprintf("call %s of %s (position %d): callee %s -> %s (already called elsewhere in the pipeline: %v)",
 			id, st.pp.Name, st.j, old, c.Callee, st.dup), false, true
 	})
+	sem("struct-definition", func(rng *rand.Rand, q *gProg) (string, bool, bool) {
+		// a field is added to a struct type that a reachable parameter uses: the declared types change
+		r := c15Reachable(q)
+		used := false
+		for _, d := range q.Decls {
+			if !r[d.name()] {
+				continue
+			}
+			for _, pr := range append(append([]gParam{}, d.ins()...), d.outs()...) {
+				if strings.TrimSuffix(pr.Type, "[]") == "Pt" {
+					used = true
+				}
+			}
+		}
+		if !used || len(q.Structs) == 0 {
+			return "", false, false
+		}
+		q.Structs[0].Fields = append(q.Structs[0].Fields, gParam{Type: "float", Name: "weight"})
+		return "field `float weight` added to struct Pt (used by a reachable parameter)", false, true
+	})
+	expect := map[string]string{"identity": "-", "whitespace": "-", "comments": "-", "include-structure": "-",
+		"reorder-declarations": "-", "reorder-parameters": "-", "reorder-bindings": "-", "unused-callable": "-", "number-spelling": "-",
+		"filetype-rename": "fileTypeName", "volatile-flag": "volatile", "stage-renamed-call-aliased": "calleeName",
+		"stage-src": "stageSrc", "stage-resources": "resources", "stage-retain": "retain", "chunk-params": "chunkParams",
+		"parameter-help": "help", "stage-output-filename": "outName", "pipeline-retain": "retain", "struct-definition": "structDef"}
+	for i := range E {
+		E[i].kinds = expect[E[i].name]
+	}
 	return E
 }
 
@@ -926,6 +1113,7 @@ func c15UlpEdit(rng *rand.Rand, q *gProg) (string, bool, bool) {
 
 type c15Pair struct {
 	edit     string
+	kinds    string
 	semantic bool
 	desc     string
 	inTop    bool
@@ -1009,7 +1197,7 @@ func runC15(c *Ctx) {
 					r.hist("edited-program-rejected:" + e.name)
 					continue
 				}
-				pairs = append(pairs, &c15Pair{e.name, e.semantic, desc, inTop, ca, cb, p, q})
+				pairs = append(pairs, &c15Pair{e.name, e.kinds, e.semantic, desc, inTop, ca, cb, p, q})
 				break
 			}
 		}
@@ -1017,7 +1205,7 @@ func runC15(c *Ctx) {
 		q := p.clone()
 		if desc, inTop, ok := c15UlpEdit(c.Rng, q); ok {
 			if cb, err := c15Compile(newDir(), q); err == nil {
-				pairs = append(pairs, &c15Pair{"float-ulp", true, desc, inTop, ca, cb, p, q})
+				pairs = append(pairs, &c15Pair{"float-ulp", "", true, desc, inTop, ca, cb, p, q})
 			}
 		}
 	}
@@ -1048,7 +1236,7 @@ func runC15(c *Ctx) {
 			continue
 		}
 		f := strings.Fields(reps[i])
-		if len(f) != 4 {
+		if len(f) != 5 {
 			r.violate(Violation{Kind: "correspondence", Key: "C15:driver-parse", What: "driver could not parse the encoded AST: " + reps[i],
 				Input: input, Broken: "correspondence C15.equiv (encoding)"})
 			continue
@@ -1056,6 +1244,25 @@ func runC15(c *Ctx) {
 		if f[2] != "true" || f[3] != "true" {
 			r.violate(Violation{Kind: "correspondence", Key: "C15:wf", What: "a real compiled AST does not satisfy the model's well-formedness hypothesis",
 				Input: input, Model: reps[i], Broken: "hypothesis Prog.wf of Props.C15.equiv_iff_sem_eq"})
+		}
+		if pr.kinds != "" && f[4] != pr.kinds {
+			r.violate(Violation{Kind: "correspondence", Key: "C15:ignored-aspect-mismatch:" + pr.edit,
+				What:  fmt.Sprintf("the model's full meaning differs in the ignored aspects {%s}, the edit class changes {%s}: %s", f[4], pr.kinds, pr.desc),
+				Input: input, Model: f[4], Expect: pr.kinds, Broken: "Martian.Equiv.meaning (ignored component) vs edit catalogue"})
+		}
+		if pr.edit == "struct-definition" {
+			// only the struct's NAME is compared: a changed definition is accepted
+			if fmt.Sprint(gab) != f[0] {
+				r.violate(Violation{Kind: "correspondence", Key: "C15:equiv-model-mismatch:" + pr.edit,
+					What: "Ast.EquivalentCall differs from the Lean model: " + pr.desc, Input: input, Impl: gab, Model: f[0],
+					Broken: "correspondence C15.equiv"})
+			}
+			if gab || gba {
+				r.violate(Violation{Kind: "property", Key: "C15:struct-definition-ignored",
+					What:  "a changed struct definition (a parameter's type changed under an unchanged type name) is accepted as equivalent: " + pr.desc,
+					Input: input, Impl: []bool{gab, gba}, Expect: false})
+			}
+			continue
 		}
 		if pr.edit == "float-ulp" {
 			// documented deviation: the model compares bits, Go allows 1e-15 relative
@@ -1109,7 +1316,7 @@ func runC15(c *Ctx) {
 			break
 		}
 		pr := pairs[i]
-		if pr.inTop || pr.edit == "float-ulp" || pr.pa == nil {
+		if pr.inTop || pr.edit == "float-ulp" || pr.edit == "struct-definition" || pr.pa == nil {
 			continue // the top-level invocation text itself must be byte-identical (see below)
 		}
 		done++
@@ -1136,6 +1343,9 @@ func runC15(c *Ctx) {
 			break
 		}
 		c15LockHistory(c, rt, pr, k)
+		if k == 0 && c.Thorough {
+			c15LockRace(c, rt, pr, 600)
+		}
 	}
 }
 
@@ -1250,67 +1460,114 @@ func c15LockHistory(c *Ctx, rt *core.Runtime, pr *c15Pair, n int) {
 	if err != nil {
 		return
 	}
-	// simulated mrp processes 0..3; process 0 invoked and holds the lock.  objs[p] = what p has
-	// registered with util.RegisterSignalHandler (also when its attach was refused)
-	const nproc = 4
+	// simulated mrp processes 0..nproc-1; process 0 invoked and holds the lock.  objs[p] = what p has
+	// registered with util.RegisterSignalHandler (also when its attach was refused).
+	// Actions: L attach for writing (= LTS check, then write if it passed), U unlock, S die through the
+	// handlers p registered, K die without any handler (SIGKILL), R an operator deletes _lock (only when
+	// no simulated process owns the pipestance).
+	nproc := 3 + c.Rng.Intn(4)
 	held := map[int]*core.Pipestance{0: ps0}
 	objs := map[int][]util.HandlerObject{0: c15NewObjects(before)}
-	ops := []string{"L0"}
-	got := []string{"1"}
+	coarse, fine := []string{"L0"}, []string{"C0", "W0"}
+	got, gotFine := []string{"1"}, []string{"1", "1"}
+	usedKR := false
 	lockExists := func() bool {
 		_, err := os.Stat(filepath.Join(psdir, "_lock"))
 		return err == nil
 	}
-	for step, m := 0, 8+c.Rng.Intn(12); step < m; step++ {
+	for step, m := 0, 8+c.Rng.Intn(14); step < m; step++ {
 		p := c.Rng.Intn(nproc)
 		h, holds := held[p]
+		k := c.Rng.Intn(12)
 		switch {
-		case holds && c.Rng.Intn(2) == 0:
+		case k == 0 && len(held) == 0:
+			os.Remove(filepath.Join(psdir, "_lock"))
+			usedKR = true
+			fine = append(fine, "R")
+			gotFine = append(gotFine, "1")
+		case k == 1:
+			// SIGKILL: p vanishes, nothing it registered runs
+			for _, o := range objs[p] {
+				util.UnregisterSignalHandler(o)
+			}
+			objs[p] = nil
+			delete(held, p)
+			usedKR = true
+			fine = append(fine, fmt.Sprintf("K%d", p))
+			gotFine = append(gotFine, "1")
+		case holds && k < 6:
 			h.Unlock()
 			objs[p] = nil
 			delete(held, p)
-			ops = append(ops, fmt.Sprintf("U%d", p))
+			coarse = append(coarse, fmt.Sprintf("U%d", p))
+			fine = append(fine, fmt.Sprintf("U%d", p))
 			got = append(got, "1")
-		case holds || c.Rng.Intn(3) == 0:
-			// p dies through the signal-handler path (holder or not, attached before or not)
+			gotFine = append(gotFine, "1")
+		case holds || k < 5:
+			// p dies through the signal-handler path (owner or not, attached before or not)
 			had := lockExists()
 			c15Die(objs[p])
 			objs[p] = nil
 			delete(held, p)
-			ops = append(ops, fmt.Sprintf("S%d", p))
+			coarse = append(coarse, fmt.Sprintf("S%d", p))
+			fine = append(fine, fmt.Sprintf("S%d", p))
 			got = append(got, "1")
+			gotFine = append(gotFine, "1")
 			if !holds && had && !lockExists() {
 				r.violate(Violation{Kind: "property", Key: "C15:refused-attacher-removed-lock",
-					What:   fmt.Sprintf("process %d, which does not hold the pipestance (its attach was refused), died through the signal-handler path and removed the live holder's _lock", p),
-					Input:  map[string]interface{}{"history": strings.Join(ops, ","), "program": pr.a.text},
-					Broken: "theorem Props.C15.at_most_one_writer"})
+					What:   fmt.Sprintf("process %d, which does not own the pipestance (its attach was refused), died through the signal-handler path and removed _lock", p),
+					Input:  map[string]interface{}{"history": strings.Join(fine, ","), "program": pr.a.text},
+					Broken: "theorem Props.C15.lts_death_of_bystander_changes_nothing"})
 			}
 		default:
 			snap := c15RegistrySet()
+			hadLock, hadHolders := lockExists(), len(held)
 			np, err := c15Attach(rt, psdir, pr.a, false)
 			objs[p] = append(objs[p], c15NewObjects(snap)...)
-			ops = append(ops, fmt.Sprintf("L%d", p))
+			coarse = append(coarse, fmt.Sprintf("L%d", p))
+			fine = append(fine, fmt.Sprintf("C%d", p))
 			if err == nil {
 				held[p] = np
 				got = append(got, "1")
+				gotFine = append(gotFine, "1", "1")
+				fine = append(fine, fmt.Sprintf("W%d", p))
 			} else {
 				got = append(got, "0")
+				gotFine = append(gotFine, "0")
+				if lockExists() != hadLock || len(held) != hadHolders {
+					r.violate(Violation{Kind: "property", Key: "C15:refused-attach-changed-state",
+						What:   "a refused attach changed the lock file",
+						Input:  map[string]interface{}{"history": strings.Join(fine, ","), "program": pr.a.text},
+						Broken: "theorem Props.C15.lts_refused_attach_changes_nothing"})
+				}
 			}
 		}
 		if len(held) > 1 {
-			r.violate(Violation{Kind: "property", Key: "C15:two-writers", What: "two runtimes hold the same pipestance for writing",
-				Input:  map[string]interface{}{"history": strings.Join(ops, ","), "program": pr.a.text},
-				Broken: "theorem Props.C15.at_most_one_writer"})
+			r.violate(Violation{Kind: "property", Key: "C15:two-writers", What: "two runtimes own the same pipestance for writing",
+				Input:  map[string]interface{}{"history": strings.Join(fine, ","), "program": pr.a.text},
+				Broken: "theorem Props.C15.lts_mutual_exclusion_partial"})
+			break
+		}
+		if len(held) == 1 && !lockExists() {
+			r.violate(Violation{Kind: "property", Key: "C15:owner-without-lock-file", What: "a live owner exists but _lock does not",
+				Input:  map[string]interface{}{"history": strings.Join(fine, ","), "program": pr.a.text},
+				Broken: "theorem Props.C15.lts_mutual_exclusion_partial"})
 			break
 		}
 	}
-	got = append(got, fmt.Sprint(lockExists()), fmt.Sprint(len(held)))
-	rep := c.Drv.Ask("C15.lock", strings.Join(ops, ","))
-	r.count("lock\x00"+strings.Join(ops, ","), true)
+	tail := []string{fmt.Sprint(lockExists()), fmt.Sprint(len(held))}
+	r.count("lock\x00"+strings.Join(fine, ","), true)
 	r.hist("lock-histories")
-	if rep != strings.Join(got, " ") {
-		r.violate(Violation{Kind: "correspondence", Key: "C15:lock-model-mismatch", What: "Lock/Unlock/HandleSignal history differs from the Lean lock model (under the regenerated fact c15RegisterFirst)",
-			Input: strings.Join(ops, ","), Impl: strings.Join(got, " "), Model: rep, Broken: "correspondence C15.lock (Martian.Equiv.lockStep)"})
+	r.hist(fmt.Sprintf("lock-history-actors=%d", nproc))
+	if rep, want := c.Drv.Ask("C15.lts", strings.Join(fine, ",")), strings.Join(append(append(gotFine, tail...), "0"), " "); rep != want {
+		r.violate(Violation{Kind: "correspondence", Key: "C15:lock-lts-mismatch", What: "attach/unlock/signal/kill/rm history on a real pipestance differs from the Lean lock LTS (under the regenerated fact c15RegisterFirst)",
+			Input: strings.Join(fine, ","), Impl: want, Model: rep, Broken: "correspondence C15.lts (Martian.LockLTS.step)"})
+	}
+	if !usedKR {
+		if rep, want := c.Drv.Ask("C15.lock", strings.Join(coarse, ",")), strings.Join(append(got, tail...), " "); rep != want {
+			r.violate(Violation{Kind: "correspondence", Key: "C15:lock-model-mismatch", What: "Lock/Unlock/HandleSignal history differs from the atomic Lean lock model",
+				Input: strings.Join(coarse, ","), Impl: want, Model: rep, Broken: "correspondence C15.lock (Martian.Equiv.lockStep)"})
+		}
 	}
 	for p, h := range held {
 		h.Unlock()
@@ -1320,6 +1577,53 @@ func c15LockHistory(c *Ctx, rt *core.Runtime, pr *c15Pair, n int) {
 		for _, o := range os {
 			util.UnregisterSignalHandler(o)
 		}
+	}
+}
+
+// c15LockRace: two overlapping Lock() calls on an unlocked pipestance (goroutines released
+// together).  Lock() is check-then-write, so both can succeed; timing dependent.
+func c15LockRace(c *Ctx, rt *core.Runtime, pr *c15Pair, trials int) {
+	r := c.Res
+	both := 0
+	for i := 0; i < trials; i++ {
+		psdir := filepath.Join(c.Scratch, fmt.Sprintf("race%06d", i))
+		ps, err := rt.InvokePipeline(pr.a.inv, filepath.Join(pr.a.dir, "invocation.mro"), "ps", psdir,
+			[]string{pr.a.dir}, "verif", nil, nil)
+		if err != nil {
+			return
+		}
+		ps.Unlock()
+		var wg sync.WaitGroup
+		start := make(chan struct{})
+		var got [2]*core.Pipestance
+		for k := 0; k < 2; k++ {
+			wg.Add(1)
+			go func(k int) {
+				defer wg.Done()
+				<-start
+				if p2, err := c15Attach(rt, psdir, pr.a, false); err == nil {
+					got[k] = p2
+				}
+			}(k)
+		}
+		close(start)
+		wg.Wait()
+		if got[0] != nil && got[1] != nil {
+			both++
+		}
+		for _, g := range got {
+			if g != nil {
+				g.Unlock()
+			}
+		}
+		os.RemoveAll(psdir)
+	}
+	r.hist(fmt.Sprintf("lock-race-trials=%d", trials))
+	if both > 0 {
+		r.violate(Violation{Kind: "property", Key: "C15:lock-check-then-write-race",
+			What:  fmt.Sprintf("two overlapping ReattachToPipestance calls for writing BOTH succeeded in %d of %d trials (Pipestance.Lock checks for _lock and then writes it with os.WriteFile, not O_EXCL)", both, trials),
+			Input: map[string]interface{}{"history": "C1,C2,W1,W2", "program": pr.a.text}, Impl: both, Expect: 0,
+			Broken: "theorem Props.C15.lts_mutual_exclusion_partial without its no-overlap hypothesis (negative witness lts_check_then_write_race)"})
 	}
 }
 
